@@ -43,6 +43,9 @@ func (r *verifRun) drive(plan []int, bodyLen int) {
 			r.broke = r.breakOpenFile(r.breakVoid)
 		}
 		if i == r.limitBefore {
+			if r.limitNeedsPending && !r.batchPending() {
+				verifrt.Assume(false) // (gzip: nothing pending, the limit would strike natively inside a member header the model does not have)
+			}
 			r.limitFileSize(r.limitRoom)
 		}
 		if (ev == verifEvTick && r.tickStopped) || (r.termClosed && (ev == verifEvTick || ev == verifEvHup || ev == verifEvTerm)) {
